@@ -726,6 +726,7 @@ def run(tier, seed):
 
     # ------------------------------------------------------------------ decorators
     decorator_cases(chk, rng, tier, flags, ask)
+    decorator_histories(chk, rng, tier, flags, ask)
 
     # ------------------------------------------------------------------ the model's answers
     try:
@@ -779,7 +780,7 @@ def compare(op, rep, impl):
         # which stage refuses (numbers vs units) depends on rounding of the conversion when the
         # units differ; only pass / not-pass is compared
         return rep[0] in ("unitsDiffer", "valuesDiffer", "refused")
-    if op in ("c19.accepts", "c19.returns", "c19.hasdim"):
+    if op in ("c19.accepts", "c19.returns", "c19.hasdim", "c19.accepts_seq", "c19.returns_seq"):
         return rep == impl
     return False
 
@@ -989,6 +990,165 @@ def decorator_cases(chk, rng, tier, flags, ask):
     if g[:2] != ("err", "ValueError"):
         chk.fail("returns|r_unit-and-positional-accepted", f"returns(length, r_unit=time) gave {g[:2]}", {"python": hdr + "try:\n    returns(D.length, r_unit=D.time)\nexcept ValueError:\n    pass\nelse:\n    raise AssertionError('accepted')\n"})
     ask("c19.returns", ["0,1,0,0,0,0,0,0", "0,0,1,0,0,0,0,0", "S", "none"], ["decorate-err", "ValueError"], "returns(length, r_unit=time)")
+
+
+def decorator_histories(chk, rng, tier, flags, ask):
+    """Sequences of calls on ONE decorated function: the property quantifies over every call of a
+    decorated function, whatever was called before.  Each call's outcome is compared with the
+    history-free contract (through ⇔ every checked argument has the stated dimension; a refused
+    call does not enter the wrapped function) and the whole history with the model
+    (`acceptsHistory` / `returnsHistory`, theorem `accepts_history_independent`)."""
+    import sympy
+    import unyt.dimensions as D
+    from unyt import unyt_quantity as Q
+    from unyt.dimensions import accepts, returns
+
+    names = flags.get("dimension_names") or sorted(n for n in dir(D) if not n.startswith("_") and isinstance(getattr(D, n), sympy.Basic))
+    dims = {}
+    for n in names:
+        try:
+            dims[n] = [F(x) for x in gen.dim_vec(getattr(D, n)).split(",")]
+        except Exception:  # noqa: BLE001
+            pass
+    usable_names = sorted(n for n, v in dims.items() if v[7] == 0)
+    hdr = "import numpy as np, unyt\nfrom unyt import unyt_quantity as Q\nimport unyt.dimensions as D\nfrom unyt.dimensions import accepts, returns\n"
+
+    def vstr(v):
+        return ",".join(gen.rat_str(x) for x in v)
+
+    def has_dim(wire, vec):  # an object without units counts as dimensionless
+        return (DIMLESS if wire == "none" else wire) == vstr(vec)
+
+    def val(vec, spelling, num):
+        us = unit_for_dim(vec, spelling)
+        return Q(float(num), us), f"Q({float(num)!r}, {us!r})", vstr(vec)
+
+    reps = 1 if tier == "quick" else 6
+    for rep in range(reps):
+        for pn in usable_names:
+            others = [n for n in usable_names if dims[n] != dims[pn]]
+            qn = rng.choice(others)
+            rn = rng.choice([n for n in others if dims[n] != dims[qn]])
+            three = rng.random() < 0.4
+            checked = [("p", pn), ("q", qn)] + ([("r", rn)] if three else [])
+            params = [c[0] for c in checked]
+            # two spellings per parameter, reused along the history so that units are "seen before"
+            pool = {nm: [val(dims[dn], sp, rng.randint(1, 9)) for sp in rng.sample([0, 1, 2], 2)] for nm, dn in checked}
+            calls = []
+            deco = accepts(**{nm: getattr(D, dn) for nm, dn in checked})
+            if three:
+
+                @deco
+                def f(p, q, r, extra=None):
+                    calls.append(1)
+                    return (p, q, r)
+
+                fsrc = "def f(p, q, r, extra=None):\n    calls.append(1); return (p, q, r)\n"
+            else:
+
+                @deco
+                def f(p, q, extra=None):
+                    calls.append(1)
+                    return (p, q)
+
+                fsrc = "def f(p, q, extra=None):\n    calls.append(1); return (p, q)\n"
+            dsrc = "@accepts(" + ", ".join(f"{nm}=D.{dn}" for nm, dn in checked) + ")\n" + fsrc
+            varnames = ",".join(f.__wrapped__.__code__.co_varnames)
+            steps = ["good"] + [rng.choice(["good", "swapped", "swapped", "one-wrong-seen", "bare", "rotated-new-units", "good-other-spelling"]) for _ in range(rng.randint(3, 6))]
+            lines_src, wires, history = [], [], []
+            bad_reported = False
+            for si, kind in enumerate(steps):
+                pick = {nm: rng.randrange(2) for nm in params}
+                assign = {nm: pool[nm][pick[nm]] for nm in params}  # right dimensions
+                if kind == "swapped":
+                    perm = params[1:] + params[:1]
+                    assign = {nm: pool[src][pick[src]] for nm, src in zip(params, perm)}
+                elif kind == "one-wrong-seen":
+                    tgt, src = rng.sample(params, 2)
+                    assign[tgt] = pool[src][pick[src]]
+                elif kind == "bare":
+                    tgt = rng.choice(params)
+                    assign[tgt] = (3.0, "3.0", "none")
+                elif kind == "rotated-new-units":
+                    perm = params[1:] + params[:1]
+                    assign = {nm: val(dims[dict(checked)[src]], 2 - pick[src], rng.randint(1, 9)) if True else None for nm, src in zip(params, perm)}
+                want_through = all(has_dim(assign[nm][2], dims[dn]) for nm, dn in checked)
+                style = rng.choice(["positional", "keyword", "mixed"])
+                if style == "positional":
+                    call = lambda a=assign: f(*[a[nm][0] for nm in params])  # noqa: E731
+                    csrc = "f(" + ", ".join(assign[nm][1] for nm in params) + ")"
+                    wire = ";".join(assign[nm][2] for nm in params) + "@"
+                elif style == "keyword":
+                    order = rng.sample(params, len(params))
+                    call = lambda a=assign, o=order: f(**{nm: a[nm][0] for nm in o})  # noqa: E731
+                    csrc = "f(" + ", ".join(f"{nm}={assign[nm][1]}" for nm in order) + ")"
+                    wire = "@" + ";".join(f"{nm}={assign[nm][2]}" for nm in order)
+                else:
+                    call = lambda a=assign: f(a[params[0]][0], **{nm: a[nm][0] for nm in params[1:]})  # noqa: E731
+                    csrc = f"f({assign[params[0]][1]}, " + ", ".join(f"{nm}={assign[nm][1]}" for nm in params[1:]) + ")"
+                    wire = assign[params[0]][2] + "@" + ";".join(f"{nm}={assign[nm][2]}" for nm in params[1:])
+                before = len(calls)
+                g = outcome(call)
+                entered = len(calls) - before
+                history.append(("1" if entered else "0", "through" if g[0] == "ok" else g[1]))
+                lines_src.append(csrc)
+                wires.append(wire)
+                chk.case(("accepts-history", pn, qn, kind, style, si > 0))
+                chk.count(f"accepts-history:{kind}:{'through' if want_through else 'refuse'}")
+                good = (g[0] == "ok" and entered == 1) if want_through else (g[:2] == ("err", "TypeError") and entered == 0)
+                if not good and not bad_reported:
+                    bad_reported = True
+                    prev = "".join(f"_o(lambda: {c})\n" for c in lines_src[:-1])
+                    body = hdr + "calls = []\n" + dsrc + "def _o(f):\n    try: return ('ok', f())\n    except Exception as e: return ('err', type(e).__name__)\n" + prev + f"n = len(calls)\no = _o(lambda: {csrc})\n"
+                    if want_through:
+                        chk.fail(f"accepts|history|{kind}|right-dimension-refused", f"after {si} earlier call(s) on the same decorated function, {csrc} gave {g[:2]} (entered {entered}×); required: through",
+                                 {"python": body + "assert o[0] == 'ok' and len(calls) == n + 1, (o, len(calls) - n)\n", "history": lines_src})
+                    else:
+                        chk.fail(f"accepts|history|{kind}|wrong-dimension-" + ("accepted" if g[0] == "ok" else f"{g[1]}-entered={entered}"),
+                                 f"after {si} earlier call(s) on the same decorated function, {csrc} gave {g[:2]} and entered the wrapped function {entered}× (required TypeError, not entered): the verdict depends on the call history",
+                                 {"python": body + "assert o == ('err', 'TypeError') and len(calls) == n, (o, len(calls) - n)\n", "history": lines_src})
+            impl = ["seq", "".join(h[0] for h in history), ",".join(h[1] for h in history)]
+            ask("c19.accepts_seq", [";".join(f"{nm}={vstr(dims[dn])}" for nm, dn in checked), varnames, "#".join(wires)], impl, dsrc + "\n".join(lines_src))
+            # ---- returns: one decorated function returning what it is given, called repeatedly
+            rcalls = []
+
+            @returns(getattr(D, pn), getattr(D, qn))
+            def h(x, y):
+                rcalls.append(1)
+                return x, y
+
+            hsrc = f"@returns(D.{pn}, D.{qn})\ndef h(x, y):\n    calls.append(1); return x, y\n"
+            rsteps = ["good"] + [rng.choice(["good", "swapped", "second-wrong-seen", "bare"]) for _ in range(rng.randint(2, 4))]
+            rl, rw, rh = [], [], []
+            bad_reported = False
+            for si, kind in enumerate(rsteps):
+                x, y = pool["p"][rng.randrange(2)], pool["q"][rng.randrange(2)]
+                if kind == "swapped":
+                    x, y = y, x
+                elif kind == "second-wrong-seen":
+                    y = x
+                elif kind == "bare":
+                    x = (2.0, "2.0", "none")
+                want_ok = has_dim(x[2], dims[pn]) and has_dim(y[2], dims[qn])
+                before = len(rcalls)
+                g = outcome(lambda: h(x[0], y[0]))
+                entered = len(rcalls) - before
+                same = g[0] == "ok" and g[1][0] is x[0] and g[1][1] is y[0]
+                rh.append(("1" if entered else "0", "ok" if g[0] == "ok" else g[1]))
+                csrc = f"h({x[1]}, {y[1]})"
+                rl.append(csrc)
+                rw.append(f"T:{x[2]};{y[2]}")
+                chk.case(("returns-history", pn, qn, kind, si > 0))
+                chk.count(f"returns-history:{kind}:{'ok' if want_ok else 'refuse'}")
+                good = (same and entered == 1) if want_ok else (g[:2] == ("err", "TypeError") and entered == 1)
+                if not good and not bad_reported:
+                    bad_reported = True
+                    prev = "".join(f"_o(lambda: {c})\n" for c in rl[:-1])
+                    body = hdr + "calls = []\n" + hsrc + "def _o(f):\n    try: return ('ok', f())\n    except Exception as e: return ('err', type(e).__name__)\n" + prev + f"o = _o(lambda: {csrc})\n"
+                    chk.fail(f"returns|history|{kind}|" + ("right-dimension-refused-or-altered" if want_ok else "wrong-dimension-" + ("returned" if g[0] == "ok" else g[1])),
+                             f"after {si} earlier call(s) on the same decorated function, {csrc} gave {g[:2]}; required {'the result' if want_ok else 'TypeError'}",
+                             {"python": body + (f"assert o[0] == 'ok', o\n" if want_ok else "assert o == ('err', 'TypeError'), o\n"), "history": rl})
+            ask("c19.returns_seq", [vstr(dims[pn]) + ";" + vstr(dims[qn]), "#".join(rw)], ["seq", "".join(x[0] for x in rh), ",".join(x[1] for x in rh)], hsrc + "\n".join(rl))
 
 
 def witness_replay(chk, flags):
